@@ -73,13 +73,18 @@ def run_ogg(ctx):
     ctx.cov["write_errors"] = sum(l["werrs"] for l in files)
     # generative model vs code, outside any verdict: pages other than those of the OpusHead / OpusTags packets (whose
     # sizes are abstract in the model) predicted by the model vs found in the output
-    ctx.cov["model_drift_behaviours"] = sum(1 for l in files if l["model_data_pages"] != l["ndata"])
+    ctx.cov["model_drift_behaviours"] = sum(1 for l in files if l["model_data_pages"] != l["ndata"] or l["accept_drift"])
+    ctx.cov["packets_refused_or_ignored"] = sum(s["refused"] for s in streams)
+    ctx.cov["streams_with_refused_packet_then_more_pages"] = sum(1 for s in streams if s["refused"] and s["wr"])
+    ctx.cov["shared_buffer_behaviours"] = sum(1 for l in files if l["buf"] == "shared")
+    ctx.cov["shared_buffer_rewritable_streams_with_packets"] = sum(
+        1 for s in streams if s["buf"] == "shared" and s["api"] in ("New", "WriterSeek") and s["wr"])
     ctx.cov["header_page_count_differences"] = sum(1 for l in files if l["model_pages"] != l["npages"])
     ctx.cov["samples"] = [{"vector": v} for v in vecs[:2]] + \
         [{k: p[k] for k in ("sig", "tr", "pseq", "bos", "cont", "eos", "gran", "crc_ok", "segs", "rd")} for p in pages[:2]] + \
         [{k: s[k] for k in ("sig", "sink", "tr", "npages", "nrec", "hdr_got")} for s in streams[:1]]
     ctx.assumptions += [
-        "packets handed to the writers are valid Opus packets (TOC frame count >= 1, at most 120 ms); invalid ones are rejected by the writer and not part of C33",
+        "the packet domain includes packets the writers refuse (code 3 with missing / zero / over-long frame count) or ignore (empty payload); granule and round-trip predicates are computed from the packets the writer accepted (WriteRTP returned nil for a non-empty payload)",
         "the page -> logical stream mapping uses the serial numbers read from the writer objects (in-package read access)",
         "OggReader exposes page payloads only; continued pages are joined by the projector from the independently parsed "
         "segment tables after TLC has checked that OggReader returned the same payload, granule and serial for every page"]
